@@ -22,6 +22,8 @@ func c12HookRes(r *rand.Rand, name string, variant int) eng.Res {
 		return eng.Res{Kind: "Secret", Name: name, Fields: map[string]string{"d:h": []string{"YQ==", "Yg=="}[variant%2]}}
 	case 1:
 		return eng.Res{Kind: "ServiceAccount", Name: name, Fields: map[string]string{"l:h": fmt.Sprint(variant)}}
+	case 2: // the kinds whose logs outputLogsByPolicy fetches
+		return eng.Res{Kind: []string{"Pod", "Job"}[r.Intn(2)], Name: name, Fields: map[string]string{"l:h": fmt.Sprint(variant)}}
 	}
 	return eng.Res{Kind: "ConfigMap", Name: name, Fields: map[string]string{"d:h": fmt.Sprintf("%s-%d", name, variant)}}
 }
@@ -137,7 +139,7 @@ func c12RawOf(r *rand.Rand, h eng.Hook, pal []string) eng.Hook {
 	if r.Intn(12) > 0 { // else: no weight annotation
 		kv = append(kv, "w", pal[r.Intn(len(pal))])
 	}
-	if r.Intn(4) == 0 {
+	if r.Intn(4) == 0 || ((h.Res.Kind == "Pod" || h.Res.Kind == "Job") && r.Intn(4) > 0) {
 		kv = append(kv, "l", c12SpellList(r, [][]string{{"hook-succeeded"}, {"hook-failed"}, {"hook-succeeded", "hook-failed"}, {"hook-failed", "bar"}}[r.Intn(4)]))
 	}
 	ev := c12SpellList(r, evs)
